@@ -54,6 +54,10 @@ def evolving_history(sess, steps):
             if k < 0.45:
                 o = sess.restore(v, S, F)
                 desc.append('restore(%s,%s,%s)->%s' % (v, S, F, o.etype))
+                if r.random() < 0.7 and o.ok:
+                    # the same selection once more into the SAME, now populated, directory: what is already there must not change the choice
+                    o = sess.restore(v, S, F, target=o.target)
+                    desc.append('restore-again-into-the-same-directory(%s,%s,%s)->%s' % (v, S, F, o.etype))
             elif k < 0.7:
                 cols = r.choice([None, [SC.NAME], [SC.NAME, SC.SIZE], [SC.TIMESTAMP, SC.NAME, SC.FILE_COUNT], [SC.NOTE, SC.SIZE, SC.TIMESTAMP]])
                 o = sess.ls(v, S, columns=cols, header=r.random() < 0.5)
@@ -62,6 +66,12 @@ def evolving_history(sess, steps):
                 cols = r.choice([None, [FC.SIZE], [FC.DIGEST, FC.CHUNK_COUNT], [FC.ATIME, FC.MTIME, FC.CTIME, FC.SNAPSHOT_DATE], []])
                 o = sess.lf(v, S, F, columns=cols, header=r.random() < 0.5)
                 desc.append('lf(%s,%s,%s,%s)->%s' % (v, S, F, cols and [str(c.value) for c in cols], o.etype))
+    # everything, twice into one directory (the second run finds every file already in place)
+    for u in sess.users:
+        o = sess.restore(u)
+        if o.ok:
+            o = sess.restore(u, target=o.target)
+            desc.append('restore-everything-twice(%s)->%s' % (u, o.etype))
     # every printed name is a name that restore -S and delete accept
     for u in sess.users:
         for s in sess.readable(u):
